@@ -408,13 +408,11 @@ func (s *Solo) Truth(name string, live *facts.State, real ast.IDataContext) (tru
 					continue
 				}
 			} else if _, isJSON := live.JSON[k]; isJSON {
-				if val := v.Value(); val.IsValid() && val.CanInterface() {
-					if doc, ok := marshalDoc(val.Interface()); ok {
-						if err := shadow.AddJSON(k, doc); err == nil {
-							continue
-						}
-					}
-				}
+				// JSON facts keep the node of the data context under test: after a rule assigned a Go value into
+				// the document, re-parsing its text would change the kind of that number (int64 -> float64), and
+				// with it the meaning of expressions over it
+				shadow.ObjectStore[k] = v
+				continue
 			} else if val := v.Value(); val.IsValid() && val.CanInterface() {
 				if err := shadow.Add(k, val.Interface()); err == nil {
 					continue
